@@ -26,6 +26,26 @@ HISTORIES around one generator, each compared with the Lean model and the Lean s
             hop: each call is compared with the Lean model/spec of that call taken alone (the model is a pure
             function of the arguments).
   big       size / hop around 63..65, 127..129, 1023..1025, 4095..4097 with short and long inputs.
+  call      the CALL as written (Lean: bind / blocksApply / streamBlocksApply / blocksCall, spec blocksCallSpec): every
+            shape (each of seq / size / hop / padval positional, keyword or omitted; calls Python refuses), through
+            blocks(...) and Stream.blocks(*args, **kwargs); every SPELLING of size and hop (int, bool, int subclass,
+            float and Fraction whole / not whole, 0, negative, None, str, 2^63-1, 2^63, 10^30): which error, WHEN (at
+            the first next(), nothing pulled; or TypeError instead of the padded block after the complete blocks), the
+            blocks before it; hop <= 0 (block 0, then the source is read to its end without a block: observed with
+            sources that fail after many items instead of endless ones); size 0; every SOURCE KIND (list, tuple, deque,
+            dict keys, range, str; generator, iter(list), Stream, Stream subclass, thub, map object), ending or failing
+            at every offset; how the run ENDS (clean stop / the source's exception object / the code's error), two
+            further next() afterwards (StopIteration), the same call a second time on the same source object (a
+            container gives its blocks again, an iterator is used up, a map object goes on after its function raised);
+            the yielded object (one and the same deque, maxlen = size; Stream.blocks returns a Stream).
+  zcall     zero_pad as written: every subset of left / right / zero positional, keyword or omitted; spellings of left /
+            right (negative: no pads; float / Fraction / None / str: TypeError, for `left` before anything, for `right`
+            after the whole input); huge counts with a capped read.
+  mutg      the caller keeps every block (all are the same deque) and CHANGES ITS LENGTH between two yields (append,
+            appendleft, pop, popleft, clear, extend, del, insert) or makes operations that FAIL (IndexError: pop from
+            an empty deque, index out of range, insert into a full deque; the failed operation leaves no trace and the
+            history goes on): blocks of blocksMut with applyOps, which operations failed (bloopMutFails), spec
+            mutSpecG (hop <= size) / the plain blocks (hop >= size: theorem blocks_mut_ops_hop_ge_size).
 
 Reproducibility.  `conc` and `hist` cases always run in a fresh fork of a child that was forked before this
 process made its first call into the library; a plain case that disagrees is run again alone that way: if it
@@ -50,34 +70,52 @@ RULE = ("exhaustive (len x size x hop x route) grid on finished inputs, exhausti
         "grid of observing sources that end / fail at every position, small exhaustive grids of caller-edit and "
         "live-source histories, random larger cases of every entry incl. Stream-subclass / thub / int-like-parameter "
         "routes, interleaved generators, call histories in a fresh process, long runs (thousands of blocks) and "
-        "sizes/hops around powers of two up to 4097; a case is non-trivial "
+        "sizes/hops around powers of two up to 4097; the call layer: every call shape (positional / keyword / omitted per "
+        "parameter, refused calls) x blocks / Stream.blocks / zero_pad, every pair of spellings of size x hop (int, bool, "
+        "int subclass, whole and non-whole float / Fraction, 0, negative, None, str, around 2^63) and of left x right, "
+        "every source kind x hop/size relation x every input length up to size+2*hop+1 with a second pass over the same "
+        "source, grids of length-changing / failing caller operations; a case is non-trivial "
         "when the impl yields at least one block (or zero_pad has non-empty output); distinct = distinct JSON case")
 TRUSTED = [
     "hand-written Lean model ALV/Model/C08.lean + C08Hist.lean of lazy_misc.blocks/zero_pad (modelled, not verified: "
     "deque(maxlen), generator protocol: a source exception passes through the generator frame unchanged)",
     "independence of a call from earlier / concurrent calls holds for the model by construction (pure functions of "
     "the arguments); the `conc` cases check it on the real code",
-    "caller edits are modelled for length-preserving operations only (item assignment, rotate, reverse): the "
-    "docstring speaks of changing the returned CONTENTS; append/pop on the yielded deque are outside the property",
+    "caller operations on the yielded deque: collections.deque(maxlen) semantics of append / appendleft / pop / popleft / "
+    "clear / extend / del / insert / item assignment / rotate / reverse incl. their IndexError cases are modelled "
+    "(DqOp.apply), not verified; for hop < size and length-changing operations the spec mutSpecG is tied by the run, its "
+    "equality with the model is PENDING (proved: hop >= size for arbitrary operations, all hops for length-preserving ones)",
+    "Python's argument binding (ALV.C08.bind), the numeric tower as far as blocks uses it (int/bool exact in Int, float / "
+    "Fraction in exact Rat: the generator draws only floats whose arithmetic is exact; xrange / deque(maxlen) accept only "
+    "objects with __index__; Py_ssize_t limit 2^63-1) are modelled, not verified",
+    "the generator protocol after the end (further next() give StopIteration), the identity of the yielded deque and the "
+    "type of the result (generator / Stream) are checked on the real code as properties of the observation, not modelled",
     "Stream subclasses: `Stream.blocks(s)` is modelled as `blocks(iter(s))`; the sequence iter(s) yields for a "
     "given history is computed by the harness from the no-read-ahead clause (block k after k*hop+size items)",
 ]
 ASSUMPTIONS = [
-    "size >= 1 and hop >= 1 (the property's quantifier); size=None / hop=0 are outside it",
-    "size/hop of type int, bool or an int subclass are inside the quantifier; an int-valued float / Fraction hop is "
-    "outside (xrange(idx, size) refuses it when a padded block is due): the check then only demands that every "
-    "complete block is right and that the refusal is a TypeError",
+    "the property's quantifier is size >= 1 and hop >= 1 of an int spelling; what the code does outside it (size 0 / None / "
+    "negative / float / huge, hop <= 0 / float / Fraction / not a number) is modelled exactly and tied too (entry `call`)",
+    "hop = inf / nan, and floats whose arithmetic rounds (e.g. 0.1), are outside the model and the generator",
+    "2^6 < size < 2^63 with a padded block due is excluded from model and generator (the code would append ~size pads); "
+    "hop <= 0 on an ENDLESS source never returns (theorem call_hop_nonpos: no second block however long the source): the "
+    "generator uses sources that fail after many items instead",
 ]
 
 MANIFEST = {
     "text": "Lean 4 theorems about an executable, code-shaped model of blocks / zero_pad (both loops, idx bookkeeping, padded "
             "tail) for all lengths / sizes / hops / pad values / item types, and about the generator's histories: every "
             "prefix of the input (sources that fail or end anywhere), the number of items pulled when each block is handed "
-            "out, a caller that edits the yielded deque in place, live sources that follow the caller; tied to /repo by a "
-            "differential run (impl vs model vs spec) on every check",
+            "out, a caller that edits the yielded deque in place (length-preserving: all hops; any operation incl. failing "
+            "ones: hop >= size), live sources that follow the caller; and about the CALL: defaults (hop=None is size, padval "
+            "omitted is 0.), positional = keyword binding, Stream.blocks(*a, **k) = blocks(iter(s), *a, **k), every spelling "
+            "of size / hop / left / right (which error and when: refused sizes before anything is pulled, a whole float hop "
+            "= the int hop up to a TypeError in place of a padded block that follows a complete one, hop <= 0, size 0); tied "
+            "to /repo by a differential run (impl vs model vs spec) on every check",
     "note": "deque(maxlen), the generator protocol (a source exception passes through the frame unchanged) and Stream.blocks = "
-            "blocks(iter(s)) are modelled, not verified; caller edits are modelled for length-preserving operations only; an "
-            "int-valued float / Fraction hop is outside the quantifier (only 'right blocks or TypeError' is demanded)",
+            "blocks(iter(s)), Python's argument binding and deque operations are modelled, not verified; PENDING (tied by the "
+            "run only): non-whole float / Fraction hops, length-changing caller operations when hop < size; inf / nan hops "
+            "are outside",
     "technique": "Lean 4 machine-checked proof over an executable model + differential correspondence with observing / failing "
                  "sources, caller-edit and live-source histories, Stream subclasses overriding __iter__, interleaved generators "
                  "and call histories run in pristine forked processes (state-between-calls is reported with the explicit history)",
@@ -284,6 +322,7 @@ def generate(rng, tier, scale=1):
         cases.append(_random_case(rng))
     for _ in range((150 if quick else 1500) * scale):
         cases.append(_random_hist(rng))
+    cases.extend(_call_cases(rng, quick, scale))
     return [c for c in cases if valid(c)]
 
 
@@ -402,12 +441,266 @@ def _random_case(rng, shape=None, kinds=None):
     return {"entry": "conc", "subs": subs, "order": rng.choice(["rr", "rr", "seq", "nest"])}
 
 
+
+# ----------------------------------------------------------------------------
+# the CALL layer: shapes, spellings, defaults, source kinds, length-changing caller operations
+# ----------------------------------------------------------------------------
+SEQ = {"seq": True}
+BPARAMS = ["seq", "size", "hop", "padval"]
+ZPARAMS = ["seq", "left", "right", "zero"]
+SRC_REITER = ("list", "tuple", "deque", "dictkeys", "range", "str")
+SRC_ONESHOT = ("gen", "iter", "stream", "map", "thub", "substream")
+SRC_FAILING = ("gen", "stream", "map", "substream")
+
+
+def _shapes(params, fn):
+    """every way of writing the call: each parameter positional / keyword / omitted (positional ones form a
+    prefix); for Stream.blocks the data argument is `self`"""
+    names = params[1:]
+    out = []
+    for seqpos in (("pos", "kw") if fn != "stream" else ("self",)):
+        for npos in range(0, len(names) + 1):
+            if seqpos == "kw" and npos:
+                continue
+            rest = names[npos:]
+            for mask in range(1 << len(rest)):
+                kws = [nm for i, nm in enumerate(rest) if mask >> i & 1]
+                out.append((seqpos, list(names[:npos]), kws))
+    return out
+
+
+def _fnum(v):
+    """float parameter with its exact value"""
+    f = Fraction(v)
+    return {"f": repr(float(v)), "q": "%d/%d" % (f.numerator, f.denominator) if f.denominator != 1 else str(f.numerator)}
+
+
+def _spell(rng, v, allow=("int", "isub", "bool", "float", "frac")):
+    k = rng.choice(allow)
+    if k == "bool" and v not in (0, 1):
+        k = "isub"
+    if k == "int":
+        return v
+    if k == "isub":
+        return {"isub": v}
+    if k == "bool":
+        return {"b": bool(v)}
+    if k == "float":
+        return _fnum(v)
+    return {"fr": str(v)}
+
+
+def _mk_call(fn, shape, vals, xs, ending="stop", src="gen", **extra):
+    """vals: dict name -> JSON value for the parameters that are given"""
+    seqpos, posn, kwn = shape
+    pos = ([SEQ] if seqpos == "pos" else []) + [vals[nm] for nm in posn]
+    kw = ([["seq", SEQ]] if seqpos == "kw" else []) + [[nm, vals[nm]] for nm in kwn]
+    c = {"entry": "zcall" if fn == "zero_pad" else "call", "fn": fn, "pos": pos, "kw": kw, "xs": xs,
+         "ending": ending, "src": src}
+    c.update(extra)
+    return c
+
+
+def _call_xs(rng, n, src):
+    if src == "range":
+        return list(range(n))
+    if src == "dictkeys":
+        return list(range(100, 100 + n))
+    if src == "str":
+        return [chr(97 + i % 26) for i in range(n)]
+    return _items(rng, n, rng.choice(["int", "hetero", "ident"]))
+
+
+SIZE_SPELL = [0, 1, 2, 3, {"b": True}, {"b": False}, {"isub": 2}, -1, -3, None, "a", 2 ** 63, 2 ** 63 - 1, 10 ** 30]
+HOP_SPELL = [None, 1, 2, 3, 5, 0, -1, -4, {"b": True}, {"b": False}, {"isub": 2}, "a", 10 ** 30]
+
+
+def _rat_spellings(rng):
+    out = []
+    for v in (1, 2, 3, 4, 0, -1, -2, Fraction(1, 2), Fraction(3, 2), Fraction(5, 2), Fraction(7, 2), Fraction(-1, 2),
+              Fraction(9, 4)):
+        out.append(_fnum(v))
+        out.append({"fr": str(Fraction(v))})
+    out.append({"fr": "1/3"})
+    out.append({"fr": "7/3"})
+    return out
+
+
+def _safe_call(size, hop, n):
+    """no astronomically long padding loop (size huge and a padded block due)"""
+    if isinstance(size, int) and not isinstance(size, bool) and 10 ** 6 < size < 2 ** 63:
+        return n == 0 or (hop in (1, 2) and n < 10 ** 5)
+    return True
+
+
+def _call_cases(rng, quick, scale):
+    cases = []
+    pads = [None, 0, "pad", {"f": "0.0"}, {"o": -1}, {"b": False}]
+    # 1. every call shape x a few parameter values x both functions
+    if scale == 1:
+        for fn in ("blocks", "stream"):
+            for shape in _shapes(BPARAMS, fn):
+                for size, hop, n in ((3, 2, 6), (2, 3, 6), (2, 2, 3), (3, None, 4)):
+                    vals = {"size": size, "hop": hop, "padval": pads[(size + n + len(shape[1])) % len(pads)]}
+                    src = rng.choice(SRC_REITER + SRC_ONESHOT)
+                    cases.append(_mk_call(fn, shape, vals, _call_xs(rng, n, src), "stop", src))
+            # calls Python refuses: too many positional, unknown keyword, a parameter given twice, no data argument
+            xs = [1, 2, 3, 4, 5]
+            first = [SEQ] if fn == "blocks" else []
+            for pos, kw in ((first + [2, 1, None, 7], []), (first + [2], [["pad", 0]]), (first + [2], [["size", 3]]),
+                            (first + [2, 1], [["hop", 1]]), (first, [["seq", SEQ], ["size", 2]]) if fn == "stream" else ([], [["size", 2]]),
+                            (first + [2, 1, 0], [["padval", 0]]), (first, [["size", 2], ["hope", 1]])):
+                cases.append({"entry": "call", "fn": fn, "pos": pos, "kw": kw, "xs": xs, "ending": "stop", "src": "list"})
+        for shape in _shapes(ZPARAMS, "zero_pad"):
+            for l, r, n in ((2, 1, 3), (0, 2, 0), (1, 0, 2)):
+                vals = {"left": l, "right": r, "zero": pads[(l + r + len(shape[2])) % len(pads)]}
+                src = rng.choice(("list", "tuple", "gen", "stream", "str", "iter", "range"))
+                cases.append(_mk_call("zero_pad", shape, vals, _call_xs(rng, n, src), "stop", src))
+        for pos, kw in (([SEQ, 1, 2, 0, 4], []), ([SEQ], [["lef", 1]]), ([SEQ, 1], [["left", 2]]), ([], [["left", 1]]),
+                        ([None, 2, 1], []), ([5], []), ([None], [])):
+            cases.append({"entry": "zcall", "fn": "zero_pad", "pos": pos, "kw": kw, "xs": [1, 2], "ending": "stop", "src": "list"})
+        # 2. spellings of size x hop (every pair), short and long inputs, ending stop / fail
+        rats = _rat_spellings(rng)
+        for size in SIZE_SPELL:
+            for hop in HOP_SPELL + rats[::(3 if quick else 1)]:
+                for n in (0, 1, 2, 3, 4, 7):
+                    if not _safe_call(size, hop, n):
+                        continue
+                    if quick and (n + len(json.dumps([size, hop]))) % 2:
+                        continue
+                    ending = ("stop", "fail")[(n + len(json.dumps(hop))) % 2] if n else "stop"
+                    src = ("gen", "stream", "map")[n % 3]
+                    fn = ("blocks", "stream")[(n // 2) % 2]
+                    shape = ("pos", ["size", "hop"], []) if fn == "blocks" else ("self", ["size"], ["hop"])
+                    cases.append(_mk_call(fn, shape, {"size": size, "hop": hop}, list(range(n)), ending, src))
+        # 3. float / Fraction / non-positive hops: every length around the block boundaries
+        for size in (1, 2, 3, 4):
+            for hop in rats + [0, -1, -2, -5]:
+                for n in range(0, (9 if quick else 14)):
+                    if quick and (n + size) % 2 and isinstance(hop, dict) and "fr" in hop:
+                        continue
+                    cases.append(_mk_call("blocks", ("pos", ["size"], ["hop", "padval"]), {"size": size, "hop": hop, "padval": "P"},
+                                          list(range(n)), ("stop", "stop", "fail")[(n + size) % 3], "gen"))
+        # 4. source kinds x hop/size relation x where the input ends (every offset), re-iteration afterwards
+        for src in SRC_REITER + SRC_ONESHOT:
+            for size, hop in ((3, 1), (2, 2), (2, 5), (1, 3), (3, 4)):
+                for n in range(0, size + 2 * hop + 2):
+                    if quick and (n + len(src)) % 2:
+                        continue
+                    fn = ("blocks", "stream")[(n + size) % 2]
+                    shape = ("pos", ["size", "hop"], ["padval"]) if fn == "blocks" else ("self", [], ["size", "hop", "padval"])
+                    ending = "fail" if src in SRC_FAILING and (n + hop) % 3 == 0 else "stop"
+                    cases.append(_mk_call(fn, shape, {"size": size, "hop": hop, "padval": None}, _call_xs(rng, n, src),
+                                          ending, src, again=True))
+        # 5. zero_pad spellings
+        zsp = [0, 1, 2, -1, -7, {"b": True}, {"b": False}, {"isub": 2}, _fnum(1), _fnum(0), _fnum(Fraction(3, 2)), {"fr": "1"},
+               {"fr": "1/2"}, None, "a"]
+        for l in zsp:
+            for r in zsp:
+                for n in (0, 2):
+                    if quick and (len(json.dumps([l, r])) + n) % 2:
+                        continue
+                    src = ("gen", "list", "stream", "map")[(n + len(json.dumps(l))) % 4]
+                    ending = "fail" if src in SRC_FAILING and len(json.dumps(r)) % 2 else "stop"
+                    cases.append(_mk_call("zero_pad", ("pos", ["left"], ["right", "zero"]), {"left": l, "right": r, "zero": "z"},
+                                          list(range(n)), ending, src))
+        for l, r in ((10 ** 30, 0), (0, 10 ** 30), (2 ** 63, 1), (3, 2 ** 64), (5000, 5000)):
+            cases.append(_mk_call("zero_pad", ("pos", ["left", "right"], []), {"left": l, "right": r}, [1, 2, 3], "stop", "gen", cap=40))
+        # 6. caller operations that change the length of the yielded deque / fail
+        Lg, Sg, Hg = (9, 4, 5) if quick else (16, 5, 7)
+        for n in range(Lg + 1):
+            for size in range(1, Sg + 1):
+                for hop in range(1, Hg + 1):
+                    cases.append({"entry": "mutg", "size": size, "hop": hop, "pad": "P", "xs": list(range(n)),
+                                  "ops": _ops(rng, size, nfull(size, hop, n)), "route": ("func", "stream")[(n + hop) % 2]})
+    for _ in range((500 if quick else 5000) * scale):
+        cases.append(_random_call(rng))
+    return cases
+
+
+def _ops(rng, size, nblocks):
+    out = []
+    for _ in range(nblocks):
+        ops = []
+        for _ in range(rng.choice([0, 1, 1, 2, 3])):
+            k = rng.choice(["append", "appendleft", "pop", "popleft", "clear", "extend", "del", "insert", "set", "rot", "rev",
+                            "pop", "popleft", "append"])
+            v = rng.choice(["X", "Y", -7, None, {"f": "1.5"}])
+            if k in ("append", "appendleft"):
+                ops.append([k, v])
+            elif k in ("pop", "popleft", "clear"):
+                ops.append([k])
+            elif k == "extend":
+                ops.append([k, [rng.choice(["e1", "e2", 0]) for _ in range(rng.randint(0, size + 1))]])
+            elif k == "del":
+                ops.append([k, rng.randrange(size + 1)])
+            elif k == "insert":
+                ops.append([k, rng.randrange(size + 2), v])
+            elif k == "set":
+                ops.append([k, rng.randrange(size + 1), v])
+            elif k == "rot":
+                ops.append([k, rng.randint(-size - 1, size + 1)])
+            else:
+                ops.append(["rev"])
+        out.append(ops)
+    return out
+
+
+def _random_call(rng):
+    u = rng.random()
+    if u < .2:
+        size, hop, n = _shape(rng, 6)
+        return {"entry": "mutg", "size": size, "hop": hop, "pad": rng.choice(PAD_POOL), "xs": _items(rng, n, "int"),
+                "ops": _ops(rng, size, nfull(size, hop, n)), "route": rng.choice(["func", "stream"])}
+    if u < .4:
+        shape = rng.choice(_shapes(ZPARAMS, "zero_pad"))
+        src = rng.choice(("list", "tuple", "gen", "stream", "str", "iter", "map", "deque"))
+        vals = {"left": _spell(rng, rng.choice([0, 1, 2, 5, -1])), "right": _spell(rng, rng.choice([0, 1, 3, -2])),
+                "zero": rng.choice(PAD_POOL)}
+        return _mk_call("zero_pad", shape, vals, _call_xs(rng, rng.randint(0, 6), src),
+                        rng.choice(["stop", "fail"]) if src in SRC_FAILING else "stop", src)
+    fn = rng.choice(["blocks", "stream"])
+    shape = rng.choice(_shapes(BPARAMS, fn))
+    size, hop, n = _shape(rng, 6)
+    src = rng.choice(SRC_REITER + SRC_ONESHOT)
+    v = rng.random()
+    if v < .35:
+        hv = _spell(rng, hop)
+    elif v < .5:
+        hv = rng.choice([0, -1, -hop, {"b": False}])
+    elif v < .65:
+        hv = rng.choice([_fnum(Fraction(2 * hop + 1, 2)), {"fr": "%d/3" % (3 * hop + 1)}, _fnum(Fraction(-1, 2)), _fnum(-hop)])
+    else:
+        hv = hop
+    sv = _spell(rng, size, ("int", "int", "isub", "bool")) if rng.random() < .8 else rng.choice([0, {"b": False}, -1, _fnum(size), None, "s"])
+    vals = {"size": sv, "hop": hv, "padval": rng.choice(PAD_POOL)}
+    if "hop" not in shape[1] + shape[2]:
+        pass        # hop omitted: the default (= size) is what the call means
+    return _mk_call(fn, shape, vals, _call_xs(rng, n, src),
+                    rng.choice(["stop", "fail"]) if src in SRC_FAILING else "stop", src, again=rng.random() < .3,
+                    exc=rng.choice(EXC_POOL))
+
+
 def valid(c):
     e = c["entry"]
     if e == "conc":
         return len(c["subs"]) >= 1 and all(valid(s) for s in c["subs"])
     if e == "hist":
         return len(c["steps"]) >= 1 and all(s["entry"] not in ("hist", "conc") and valid(s) for s in c["steps"])
+    if e in ("call", "zcall"):
+        if c["ending"] == "fail" and c.get("src", "gen") not in SRC_FAILING:
+            return False
+        src = c.get("src", "gen")
+        xs = c["xs"]
+        if src == "range" and xs != list(range(len(xs))):
+            return False
+        if src == "dictkeys" and (len(set(map(json.dumps, xs))) != len(xs) or not all(type(x) is int for x in xs)):
+            return False
+        if src == "str" and not all(isinstance(x, str) and len(x) == 1 for x in xs):
+            return False
+        if src == "thub" and (c["fn"] != "stream" or c.get("again")):
+            return False
+        return True
     if e == "zero_pad":
         if c.get("ptype") == "bool" and (c["left"] > 1 or c["right"] > 1):
             return False
@@ -434,6 +727,8 @@ def valid(c):
                 return False
         if r == "gain" and not all(type(x) is int for x in c["xs"]):
             return False
+    if e == "mutg":
+        return len(c["ops"]) <= nfull(c["size"], c["hop"], n)
     if e == "mut":
         for ops in c["edits"]:
             for op in ops:
@@ -783,6 +1078,220 @@ def _impl_zero_pad(c):
     return obs
 
 
+def _unnum(j):
+    """a parameter value as the Python object of that spelling"""
+    if isinstance(j, dict):
+        if "isub" in j:
+            return Int(j["isub"])
+        if "b" in j:
+            return bool(j["b"])
+        if "f" in j:
+            return float(j["f"])
+        if "fr" in j:
+            return Fraction(j["fr"])
+    return j
+
+
+def _mk_source(kind, xs, ending, log, exc):
+    """(source object, whether the number of items pulled from it is observable)"""
+    from audiolazy import Stream, thub
+    SubStream, _C, _G = _classes()
+    if kind == "list":
+        return xs, False
+    if kind == "tuple":
+        return tuple(xs), False
+    if kind == "deque":
+        return collections.deque(xs), False
+    if kind == "dictkeys":
+        return dict.fromkeys(xs).keys(), False
+    if kind == "range":
+        return range(len(xs)), False
+    if kind == "str":
+        return "".join(xs), False
+    if kind == "iter":
+        return iter(xs), False
+    if kind == "gen":
+        return _source(xs, ending, log, exc), True
+    if kind == "stream":
+        return Stream(_source(xs, ending, log, exc)), True
+    if kind == "substream":
+        return SubStream(_source(xs, ending, log, exc)), True
+    if kind == "thub":
+        with warnings.catch_warnings():
+            warnings.simplefilter("ignore")
+            return thub(_source(xs, ending, log, exc), 1), True
+    if kind == "map":
+        # a map object: the element function raises at the item after the last one (and would go on afterwards)
+        stop = object()
+
+        def f(x):
+            if x is stop:
+                raise exc
+            log.append(len(log))
+            return x
+        return map(f, list(xs) + ([stop, ("after", 0), ("after", 1)] if ending == "fail" else [])), True
+    raise ValueError("src " + kind)
+
+
+def _bind_args(c, params, src, reg):
+    off = 1 if c["fn"] == "stream" else 0
+
+    def conv(name, j):
+        if name == "seq":
+            return src if j == SEQ else _unnum(j)
+        if name in ("padval", "zero"):
+            return untag(j, reg)
+        return _unnum(j)
+    pos = [conv(params[i + off] if i + off < len(params) else "?", j) for i, j in enumerate(c["pos"])]
+    kw = {k: conv(k, j) for k, j in c["kw"]}
+    return pos, kw
+
+
+def _drain(gi, bound, each, exc):
+    """pull to the end; returns the ending"""
+    try:
+        for k, b in enumerate(gi):
+            each(b)
+            if k + 1 >= bound:
+                return "runaway"
+    except Exception as e:
+        return "srcFail" if e is exc else err_kind(e)
+    return "stop"
+
+
+def _after(gi):
+    out = []
+    for _ in range(2):
+        try:
+            next(gi)
+            out.append("item")
+        except StopIteration:
+            out.append("StopIteration")
+        except Exception as e:
+            out.append(err_kind(e))
+    return out
+
+
+def _impl_call(c):
+    with warnings.catch_warnings():
+        warnings.simplefilter("ignore")
+        return _impl_call1(c)
+
+
+def _impl_call1(c):
+    from audiolazy import blocks, zero_pad, Stream
+    reg = {}
+    xs = [untag(x, reg) for x in c["xs"]]
+    exc = _make_exc(c.get("exc", "DeviceError"))
+    log = []
+    kind = c.get("src", "gen")
+    src, observable = _mk_source(kind, xs, c["ending"], log, exc)
+    fn = c["fn"]
+    pos, kw = _bind_args(c, ZPARAMS if fn == "zero_pad" else BPARAMS, src, reg)
+    obs = {"bound": True, "observable": observable}
+
+    def make():
+        if fn == "blocks":
+            return blocks(*pos, **kw)
+        if fn == "zero_pad":
+            return zero_pad(*pos, **kw)
+        return (src if kind in ("stream", "substream", "thub") else Stream(src)).blocks(*pos, **kw)
+    try:
+        g = make()
+    except TypeError:
+        obs["bound"] = False
+        return obs
+    obs["kind"] = "Stream" if isinstance(g, Stream) else type(g).__name__
+    obs["pulled_at_construction"] = len(log)
+    gi = iter(g)
+    if fn == "zero_pad":
+        out, reads = [], []
+
+        def each(x):
+            out.append(tag(x, reg))
+            reads.append(len(log))
+        obs["ending"] = _drain(gi, c.get("cap", len(xs) + 10 ** 5), each, exc)
+        obs["out"], obs["reads"] = out, reads
+    else:
+        events, objs = [], []
+
+        def each(b):
+            events.append([len(log), tagl(b, reg)])
+            objs.append(b)
+        obs["ending"] = _drain(gi, len(xs) + 4, each, exc)
+        obs["events"] = events
+        obs["same_object"] = all(o is objs[0] for o in objs)
+        if objs:
+            obs["container"] = type(objs[0]).__name__
+            obs["maxlen"] = objs[0].maxlen
+    obs["pulled"] = len(log)
+    obs["after"] = _after(gi)
+    if c.get("again") and fn != "zero_pad":
+        # the same call once more on the SAME source object: a container gives its blocks again, an iterator is used up
+        out2 = []
+        try:
+            g2 = make()
+            obs["again_ending"] = _drain(iter(g2), len(xs) + 4, lambda b: out2.append(tagl(b, reg)), exc)
+        except Exception as e:
+            obs["again_ending"] = "construct:" + err_kind(e)
+        obs["again"] = out2
+    return obs
+
+
+def _apply_op(blk, op, reg):
+    k = op[0]
+    if k in ("set", "rot", "rev"):
+        _apply_edit(blk, op, reg)
+    elif k == "append":
+        blk.append(untag(op[1], reg))
+    elif k == "appendleft":
+        blk.appendleft(untag(op[1], reg))
+    elif k == "pop":
+        blk.pop()
+    elif k == "popleft":
+        blk.popleft()
+    elif k == "clear":
+        blk.clear()
+    elif k == "extend":
+        blk.extend([untag(v, reg) for v in op[1]])
+    elif k == "del":
+        del blk[op[1]]
+    elif k == "insert":
+        blk.insert(op[1], untag(op[2], reg))
+    else:
+        raise ValueError("op " + k)
+
+
+def _impl_mutg(c):
+    from audiolazy import blocks, Stream
+    reg = {}
+    xs = [untag(x, reg) for x in c["xs"]]
+    pad = untag(c["pad"], reg)
+    kw = dict(size=c["size"], hop=c["hop"], padval=pad)
+    gen = blocks(xs, **kw) if c.get("route", "func") == "func" else Stream(xs).blocks(**kw)
+    out, fails, keep = [], [], []
+    obs = {"blocks": out, "fails": fails}
+    nf = nfull(c["size"], c["hop"], len(xs))
+    try:
+        for k, blk in enumerate(gen):
+            out.append(tagl(blk, reg))
+            keep.append(blk)            # the caller keeps a reference to every block it was given
+            if k < nf:
+                fl = []
+                for op in (c["ops"][k] if k < len(c["ops"]) else []):
+                    try:
+                        _apply_op(blk, op, reg)
+                        fl.append(False)
+                    except IndexError:
+                        fl.append(True)
+                fails.append(fl)
+    except Exception as e:
+        obs["err"] = err_kind(e)
+    obs["aliased"] = all(b is keep[0] for b in keep)
+    obs["maxlen_ok"] = all(b.maxlen == c["size"] for b in keep)
+    return obs
+
+
 def _impl_conc(c):
     from audiolazy import blocks, Stream
     reg = {}
@@ -983,6 +1492,10 @@ def _impl(c):
             return _impl_conc(c)
         if e == "hist":
             return {"steps": [_impl(st) for st in c["steps"]]}
+        if e in ("call", "zcall"):
+            return _impl_call(c)
+        if e == "mutg":
+            return _impl_mutg(c)
         return _impl_zero_pad(c)
     except Exception as ex:
         return {"err": err_kind(ex)}
@@ -991,7 +1504,29 @@ def _impl(c):
 # ----------------------------------------------------------------------------
 # Lean side
 # ----------------------------------------------------------------------------
+def _norm(j):
+    return j["isub"] if isinstance(j, dict) and "isub" in j else j
+
+
+def _req_call(c, xs=None):
+    r = {"entry": c["entry"], "fn": c["fn"], "pos": [_norm(j) for j in c["pos"]], "kw": [[k, _norm(j)] for k, j in c["kw"]],
+         "xs": c["xs"] if xs is None else xs, "ending": c["ending"] if xs is None else "stop"}
+    if "cap" in c:
+        r["cap"] = c["cap"]
+    return r
+
+
 def _req1(c):
+    if c["entry"] in ("call", "zcall"):
+        if c.get("again"):
+            # second pass over the same source object: a container is read again, an iterator is used up
+            again_xs = c["xs"] if c.get("src") in SRC_REITER and _seq_is_data(c) else []
+            if c.get("src") == "map" and c["ending"] == "fail" and _seq_is_data(c):
+                again_xs = [{"t": ["after", 0]}, {"t": ["after", 1]}]     # a map object goes on after its function raised
+            return {"entry": "conc", "subs": [_req_call(c), _req_call(c, again_xs)]}
+        return _req_call(c)
+    if c["entry"] == "mutg":
+        return {k: c[k] for k in ("entry", "size", "hop", "pad", "xs", "ops")}
     r = {k: c[k] for k in ("entry", "size", "hop", "pad", "xs", "n", "ending", "edits", "vals",
                            "left", "right", "zero", "fast") if k in c}
     if c["entry"] == "blocks" and c.get("route") == "gain":
@@ -999,6 +1534,10 @@ def _req1(c):
     if c["entry"] == "live":
         r["pair"] = c.get("kind", "cell") != "control"
     return r
+
+
+def _seq_is_data(c):
+    return c["fn"] == "stream" or (c["pos"][:1] == [SEQ]) or any(k == "seq" and v == SEQ for k, v in c["kw"])
 
 
 def request(c):
@@ -1034,6 +1573,76 @@ def _cmp_blocks(c, io, drv, out, where=""):
         out.append(("spec", where + "Stream.blocks returned a %s, not a Stream" % io["not_a_stream"]))
     if io.get("inner_wrong"):
         out.append(("spec", where + "an inner blocks() call made while the outer generator was pulling its source gave wrong blocks"))
+
+
+def _cmp_call(c, io, drv, out):
+    again = None
+    if c.get("again") and "subs" in drv:
+        drv, again = drv["subs"]
+    fn = c["fn"]
+    for side in ("model", "spec"):
+        d = drv[side]
+        if d is None:
+            if io.get("bound") is not False:
+                out.append((side, "%s: the call is refused by Python's binding in the %s but the code accepted it" % (fn, side)))
+            continue
+        if io.get("bound") is False:
+            out.append((side, "%s: TypeError when the call was made, the %s accepts this call shape" % (fn, side)))
+            continue
+        obsv = io["observable"]
+        if fn == "zero_pad":
+            capped = io["ending"] == "runaway"
+            if io["out"] != d["out"] or (obsv and io["reads"] != d["reads"]):
+                out.append((side, "zero_pad call: output differs from %s: impl=%r reads=%r, %s=%r reads=%r"
+                            % (side, io["out"][:60], io["reads"][:60] if obsv else None, side, d["out"][:60], d["reads"][:60])))
+            elif capped != (d["total"] > c.get("cap", 10 ** 9)) or (not capped and io["ending"] != d["ending"]):
+                out.append((side, "zero_pad call: ends with %s, %s: %s (total %d)" % (io["ending"], side, d["ending"], d["total"])))
+            continue
+        ev = io["events"]
+        same = [b for _n, b in ev] == [b for _n, b in d["events"]] and (not obsv or ev == d["events"])
+        if not same or io["ending"] != d["ending"]:
+            out.append((side, "%s call: (pulled, block) events / ending differ from %s: impl=%s then %s, %s=%s then %s"
+                        % (fn, side, _ev(ev, False)[:-13], io["ending"], side, _ev(d["events"], False)[:-13], d["ending"])))
+        elif obsv and io["pulled"] != d["pulled"] and c.get("src") != "thub":
+            out.append((side, "%s call: %d items had been pulled from the source when the run ended (%s), %s: %d"
+                        % (fn, io["pulled"], io["ending"], side, d["pulled"])))
+    if io.get("bound") is False or drv["spec"] is None:
+        return
+    # the generator protocol around the run (spec only)
+    if io.get("pulled_at_construction"):
+        out.append(("spec", "%s call: %d items pulled when the generator was only constructed" % (fn, io["pulled_at_construction"])))
+    if io["after"] != ["StopIteration", "StopIteration"] and io["ending"] != "runaway":
+        out.append(("spec", "%s call: after the run ended (%s) two further next() gave %r, a finished generator only stops"
+                    % (fn, io["ending"], io["after"])))
+    want = "Stream" if fn == "stream" else "generator"
+    if io.get("kind") != want:
+        out.append(("spec", "%s call returns a %s, not a %s" % (fn, io.get("kind"), want)))
+    if fn != "zero_pad":
+        if not io["same_object"]:
+            out.append(("spec", "%s call: the yielded blocks are not one and the same container object" % fn))
+        if io["events"] and (io.get("container") != "deque" or io.get("maxlen") != len(io["events"][0][1])):
+            out.append(("spec", "%s call: the yielded container is a %s with maxlen %r" % (fn, io.get("container"), io.get("maxlen"))))
+        if again is not None and "again" in io:
+            want2 = again["spec"]
+            if want2 is not None and (io["again"] != [b for _n, b in want2["events"]] or io["again_ending"] != want2["ending"]):
+                out.append(("spec", "%s call made a second time on the same %s source: impl=%r then %s, spec=%r then %s"
+                            % (fn, c.get("src"), io["again"], io["again_ending"], [b for _n, b in want2["events"]], want2["ending"])))
+
+
+def _cmp_mutg(c, io, drv, out):
+    if "err" in io:
+        out.append(("model", "mutg: impl raised " + io["err"]))
+        out.append(("spec", "mutg: impl raised %s after %r" % (io["err"], io.get("blocks"))))
+        return
+    for side in ("model", "spec"):
+        if io["blocks"] != drv[side]:
+            out.append((side, "caller operations %r: blocks differ from %s: impl=%r %s=%r" % (c["ops"], side, io["blocks"], side, drv[side])))
+    if io["fails"] != drv["fails"]:
+        out.append(("model", "caller operations %r: the operations that raised IndexError: impl=%r model=%r" % (c["ops"], io["fails"], drv["fails"])))
+    if not io["aliased"]:
+        out.append(("spec", "the blocks handed to the caller are not one and the same deque object"))
+    if not io["maxlen_ok"]:
+        out.append(("spec", "the yielded deque does not have maxlen=size"))
 
 
 def _ckey(c):
@@ -1085,6 +1694,12 @@ def _problems(c, io, drv):
         return out
     if e == "blocks":
         _cmp_blocks(c, io, drv, out)
+    elif e in ("call", "zcall"):
+        if "err" in io and "bound" not in io:
+            return [("model", "impl raised " + io["err"]), ("spec", "impl raised " + io["err"])]
+        _cmp_call(c, io, drv, out)
+    elif e == "mutg":
+        _cmp_mutg(c, io, drv, out)
     elif e == "conc":
         if "err" in io and "subs" not in io:
             return [("model", "impl raised " + io["err"]), ("spec", "impl raised " + io["err"])]
@@ -1181,6 +1796,45 @@ def tally(eng, c, io):
         eng.count("conc_shared_xs", sum(1 for s in c["subs"] if s.get("share")))
         eng.count("conc_equal_params", len({(s["size"], s["hop"]) for s in c["subs"]}) < len(c["subs"]))
         return
+    if e in ("call", "zcall"):
+        names = (ZPARAMS if e == "zcall" else BPARAMS)
+        off = 1 if c["fn"] == "stream" else 0
+        given = {}
+        for i, j in enumerate(c["pos"]):
+            given[names[i + off] if i + off < len(names) else "extra"] = ("pos", j)
+        for k, j in c["kw"]:
+            given[k if k in names and k not in given else "bad:" + k] = ("kw", j)
+        eng.count(e + "_fn", c["fn"])
+        eng.count(e + "_shape", " ".join("%s:%s" % (nm, given[nm][0] if nm in given else "omit") for nm in names[off:])
+                  + ("".join(" +" + k for k in given if k not in names)))
+        for nm in names[1:3]:
+            j = given.get(nm, (None, "omitted"))[1]
+            sp = ("omitted" if j == "omitted" else "None" if j is None else "str" if isinstance(j, str) else
+                  ("int" + ("<0" if j < 0 else "=0" if j == 0 else ">=2^63" if j >= 2 ** 63 else ">10^6" if j > 10 ** 6 else ">0")) if isinstance(j, int) else
+                  "intsub" if "isub" in j else "bool" if "b" in j else
+                  ("float" if "f" in j else "Fraction") + ("(whole)" if "/" not in j.get("q", j.get("fr", "")) else "(not whole)"))
+            eng.count("%s_%s_spelling" % (e, nm), sp)
+        pv = given.get(names[3], (None, "omitted"))[1]
+        eng.count("%s_%s" % (e, names[3]), "omitted" if pv == "omitted" else "None" if pv is None else "given")
+        eng.count(e + "_src", c.get("src", "gen"))
+        eng.count(e + "_source_ending", c["ending"])
+        eng.count(e + "_outcome", "refused-at-call" if io.get("bound") is False else io.get("ending", "?"))
+        eng.count(e + "_len", _bucket(len(c["xs"])))
+        if e == "call":
+            eng.count("call_n_blocks", min(len(io.get("events", [])), 10))
+            eng.count("call_again", c.get("src", "gen") if c.get("again") else "-")
+        return
+    if e == "mutg":
+        size, hop = c["size"], c["hop"]
+        eng.count("mutg_hop_vs_size", "hop<size" if hop < size else ("hop=size" if hop == size else "hop>size"))
+        eng.count("mutg_route", c.get("route", "func"))
+        for ops in c["ops"]:
+            for op in ops:
+                eng.count("mutg_op", op[0])
+        eng.count("mutg_failed_ops", min(sum(sum(f) for f in io.get("fails", [])), 6))
+        lens = {len(b) for b in io.get("blocks", [])}
+        eng.count("mutg_block_lengths", "all=size" if lens <= {size} else "some shorter")
+        return
     if e == "zero_pad":
         eng.count("zp_ending", c.get("ending", "stop") if c.get("observe") else "unobserved")
         eng.count("zp_ptype", c.get("ptype", "int"))
@@ -1245,6 +1899,50 @@ def _pow2ish(v):
 
 def _shrink1(c):
     e = c["entry"]
+    if e in ("call", "zcall"):
+        xs = c["xs"]
+        if c.get("again"):
+            d = dict(c)
+            d.pop("again")
+            yield d
+        if xs:
+            yield dict(c, xs=xs[:-1])
+            plain = list(range(len(xs)))
+            if xs != plain and c.get("src") != "str":
+                yield dict(c, xs=plain)
+        if c.get("src", "gen") not in ("gen", "list"):
+            yield dict(c, src="gen")
+        if c["fn"] == "stream":
+            yield dict(c, fn="blocks", pos=[SEQ] + c["pos"])
+        for i, j in enumerate(c["pos"]):
+            if isinstance(j, dict) and "isub" in j:
+                yield dict(c, pos=c["pos"][:i] + [j["isub"]] + c["pos"][i + 1:])
+            if type(j) is int and j > 1:
+                yield dict(c, pos=c["pos"][:i] + [j - 1] + c["pos"][i + 1:])
+        for i, (k, j) in enumerate(c["kw"]):
+            if isinstance(j, dict) and "isub" in j:
+                yield dict(c, kw=c["kw"][:i] + [[k, j["isub"]]] + c["kw"][i + 1:])
+            if type(j) is int and j > 1:
+                yield dict(c, kw=c["kw"][:i] + [[k, j - 1]] + c["kw"][i + 1:])
+        if c.get("exc", "DeviceError") != "DeviceError":
+            yield dict(c, exc="DeviceError")
+        return
+    if e == "mutg":
+        ops = c["ops"]
+        if c["xs"]:
+            d = dict(c, xs=c["xs"][:-1])
+            d["ops"] = ops[:nfull(c["size"], c["hop"], len(d["xs"]))]
+            yield d
+        if ops:
+            yield dict(c, ops=ops[:-1] + [[]] if ops[-1] else ops[:-1])
+        for i, o in enumerate(ops):
+            for j in range(len(o)):
+                yield dict(c, ops=ops[:i] + [o[:j] + o[j + 1:]] + ops[i + 1:])
+        if c.get("route", "func") != "func":
+            yield dict(c, route="func")
+        if c.get("pad") not in (None, "P"):
+            yield dict(c, pad=None)
+        return
     if e == "zero_pad":
         if "xs" in c and c["xs"]:
             yield dict(c, xs=c["xs"][:-1])
@@ -1352,6 +2050,9 @@ def _shrink1(c):
 
 def _cheap(d):
     """output volume of a candidate (blocks x size) stays transportable"""
+    if d["entry"] in ("call", "zcall"):
+        vals = [j for j in d["pos"]] + [j for _k, j in d["kw"]]
+        return all(not (type(j) is int and 10 ** 6 < j < 2 ** 63) for j in vals) or d["entry"] == "zcall" or not d["xs"]
     if "size" not in d:
         return True
     return (nfull(d["size"], d["hop"], case_len(d)) + 1) * d["size"] <= 300000
@@ -1453,6 +2154,12 @@ def shrink(c):
 
 
 def neighbours(c):
+    if c["entry"] in ("call", "zcall"):
+        for dn in (-1, 1, 2):
+            n = len(c["xs"]) + dn
+            if n >= 0 and c.get("src") != "str":
+                yield dict(c, xs=list(range(n)) if c.get("src") != "dictkeys" else list(range(100, 100 + n)))
+        return
     if c["entry"] not in ("blocks", "trace", "mut", "live"):
         return
     for ds in (-1, 0, 1):
@@ -1480,6 +2187,32 @@ def classify(c, io, drv):
             if _problems(st, o, d):
                 return classify(st, o, d)         # a call that is wrong on its own: its own signature
         return "hist:" + io.get("err", "?")
+    if e in ("call", "zcall"):
+        base = "%s[%s]:" % (e, c["fn"])
+        d = drv["subs"][0] if c.get("again") and "subs" in drv else drv
+        if "err" in io and "bound" not in io:
+            return base + io["err"]
+        if (d.get("spec") is None) != (io.get("bound") is False):
+            return base + "binding"
+        if io.get("bound") is False:
+            return base + "binding"
+        sp = d["spec"]
+        if e == "zcall":
+            return base + ("content" if io["out"] != sp["out"] else "reads" if io["observable"] and io["reads"] != sp["reads"] else
+                           "ending:" + io["ending"] if io["ending"] != sp["ending"] else "protocol")
+        if [b for _n, b in io["events"]] != [b for _n, b in sp["events"]]:
+            return base + "blocks"
+        if io["ending"] != sp["ending"]:
+            return base + "ending:%s-instead-of-%s" % (io["ending"], sp["ending"])
+        if io["observable"] and io["events"] != sp["events"]:
+            return base + "read-count"
+        return base + "protocol"
+    if e == "mutg":
+        if "err" in io:
+            return "mutg:" + io["err"]
+        if io["blocks"] == drv.get("plain") and drv.get("plain") != drv.get("spec"):
+            return "mutg:operations-not-visible"
+        return "mutg:content" if io["blocks"] != drv["spec"] else "mutg:failed-operations-or-identity"
     if e == "blocks":
         r = c.get("route", "func")
         pt = c.get("ptype", "int")
